@@ -14,6 +14,8 @@ SCEN = {  # the harness scenarios as histories of the Stop model
     "simultaneous-stops": "[LNewStop; LNewStop; LNewStop; LNewStop; LStop 0; LStop 1; LStop 2; LStop 3; LStop 1; LStop 0; LStop 3; LStop 2]",
     "rejected-handshakes-then-stop": "[LNewHs; LNewHs; LNewHs; LHs 0 true; LHs 0 true; LHs 0 true; LHs 1 true; LHs 1 true; LHs 1 true; LHs 2 true; LHs 2 true; LHs 2 true; LHs 0 false; LHs 1 true; LHs 2 false; LNewStop]",
     "peers-still-connecting-at-stop": "[LNewHs; LNewHs; LNewStop]",
+    "handler-still-running-at-stop": "p_admit 0 ++ [LNet 0; LNewStop]",
+    "handshake-completes-while-stop-waits": "p_admit 0 ++ [LNewHs; LHs 1 true; LHs 1 true; LHs 1 true; LNewStop; LStop 0; LStop 0; LStop 0; LHs 1 true]",
     "write-timed-out-before-stop": "p_admit 0 ++ [LWpErr 0; LNewStop]",
     "peers-closed-first": "p_admit 0 ++ p_admit 1 ++ [LSockDie 0; LRp 0; LWpCwp 0; LSockDie 1; LNewStop]",
 }
